@@ -63,6 +63,25 @@ def predict(cfg, rng, q=None):
                 if abs(got - want) > 1e-9 * abs(want):
                     out.append(dict(key='bmag', what='B_mag(%s, Boozer_toroidal=%s) = %.12g, prescribed %.12g at a grid node (period %d)' % (tag, bt, got, want, k), cfg=jsonable(cfg)))
     bcheck('fresh'); n += 4
+    # array arguments: the evaluator returns, entry by entry, what it returns for the scalar arguments, in both conventions, and leaves the caller's arrays untouched
+    # (so that calling it again with the same arrays gives the same values)
+    jj = rng.integers(0, q.nphi, size=4)
+    for bt, base in ((False, q.phi), (True, q.varphi)):
+        arr = np.array(base[jj], dtype=float) + 2 * np.pi / q.nfp * np.array([0, 1, 0, 1])
+        tha = np.array([rnd(rng, 0, 6.28) for _ in range(4)])
+        keep, keep_t = arr.copy(), tha.copy()
+        try:
+            first = np.array(q.B_mag(0.05, tha, arr, Boozer_toroidal=bt), dtype=float)
+            scal = np.array([float(q.B_mag(0.05, float(keep_t[i]), float(keep[i]), Boozer_toroidal=bt)) for i in range(4)])
+            second = np.array(q.B_mag(0.05, tha, arr, Boozer_toroidal=bt), dtype=float)
+        except Exception as e:
+            out.append(dict(key='bmag:array', what='B_mag with array arguments raised %s' % type(e).__name__, cfg=jsonable(cfg))); continue
+        n += 1
+        if not (np.array_equal(arr, keep) and np.array_equal(tha, keep_t)):
+            out.append(dict(key='bmag:array', what='B_mag(Boozer_toroidal=%s) modified the array of angles passed by the caller (by up to %.3g)' % (bt, float(np.max(np.abs(arr - keep)))), cfg=jsonable(cfg)))
+        elif np.max(np.abs(first - scal)) > 1e-12 * np.max(np.abs(scal)) or np.max(np.abs(second - first)) > 1e-12 * np.max(np.abs(scal)):
+            out.append(dict(key='bmag:array', what='B_mag(Boozer_toroidal=%s) on arrays differs from its values on the scalar arguments (%.3g) or between two identical calls (%.3g)'
+                            % (bt, float(np.max(np.abs(first - scal))), float(np.max(np.abs(second - first)))), cfg=jsonable(cfg)))
     # history: change a parameter, recalculate, evaluate again
     old = q.etabar
     q.etabar = old * 1.07
